@@ -123,6 +123,24 @@ def compare_access(ctx, ds, feat, exp, rng, case):
                                         for g, e in zip(got, exp[a:b])):
                 return bad(f"contour[{a}:{b}]", {"len": len(got)})
             good()
+            # boolean masks and index arrays: a container may refuse them, but what it
+            # returns must be the selected contours in order
+            m = rng.random(n) < 0.5
+            ia = rng.integers(0, n, int(rng.integers(1, n + 2)))
+            for what, sel, want in (("[bool mask]", m, [exp[k] for k in np.flatnonzero(m)]),
+                                    ("[bool list]", [bool(v) for v in m],
+                                     [exp[k] for k in np.flatnonzero(m)]),
+                                    ("[index array]", ia, [exp[int(k)] for k in ia])):
+                try:
+                    got = obj[sel]
+                    got = list(got)
+                except (TypeError, IndexError, ValueError, NotImplementedError, KeyError) as exc:
+                    ctx.count(f"contour_access_refused[{what}:{type(exc).__name__}]")
+                    continue
+                if len(got) != len(want) or any(not dscmp.arr_equal(np.asarray(g), e)
+                                                for g, e in zip(got, want)):
+                    return bad(f"contour{what}", {"len": len(got), "expected_len": len(want)})
+                good()
             cnt = 0
             for g in obj:
                 if cnt >= n or not dscmp.arr_equal(np.asarray(g), exp[cnt]):
@@ -170,6 +188,15 @@ def compare_access(ctx, ds, feat, exp, rng, case):
             if not dscmp.arr_equal(np.asarray(obj[ia]), e[ia]):
                 return bad("[sorted index array]", None)
             good()
+            m = rng.random(n) < 0.5
+            try:
+                got_m = np.asarray(obj[m])
+            except (TypeError, IndexError, ValueError, NotImplementedError) as exc:
+                ctx.count(f"nonscalar_mask_access_refused[{type(exc).__name__}]")
+            else:
+                if not dscmp.arr_equal(got_m, e[m]):
+                    return bad("[bool mask]", {"len": len(got_m), "expected": int(m.sum())})
+                good()
             if tuple(obj.shape) != e.shape:
                 return bad("shape", {"shape": list(obj.shape), "expected": list(e.shape)})
             good()
